@@ -3,14 +3,15 @@
 import json, os, shutil, subprocess, sys
 ID, name, caught = sys.argv[1], sys.argv[2], sys.argv[3]
 needs = " ".join(sys.argv[4:])
-src = f"/tmp/seed-out/{ID}"; dst = f"/verif/seeded/{name}"
+PFX = os.environ.get("SEEDPFX", "seed")
+src = f"/tmp/{PFX}-out/{ID}"; dst = f"/verif/seeded/{name}"
 os.makedirs(dst, exist_ok=True)
 # patch from the worktree itself (authoritative), tracked files only
 # the deliverable is authoritative (worktree state may have been disturbed: git stash is shared between worktrees)
 shutil.copy(f"{src}/patch.diff", f"{dst}/patch.diff")
 shutil.copy(f"{src}/seed_demo_test.go", f"{dst}/seed_demo_test.go")
 meta_txt = open(f"{src}/meta.txt").read() if os.path.exists(f"{src}/meta.txt") else ""
-base = subprocess.run(["git", "-C", f"/tmp/seed-{ID}", "rev-parse", "--short", "HEAD"], capture_output=True, text=True).stdout.strip()
+base = subprocess.run(["git", "-C", "/repo", "rev-parse", "--short", "HEAD"], capture_output=True, text=True).stdout.strip()
 meta = {
     "property": ID[:3],
     "base_commit": base,
@@ -18,7 +19,7 @@ meta = {
     "needs_to_manifest": needs,
     "author_notes": meta_txt,
     "confirmed_by_me": ["suite passes with the change (go test ./larking/ -skip TestSeedDemo)", "TestSeedDemo fails with the change", "TestSeedDemo passes without it"],
-    "ran": [f"VERIF_REPO=/tmp/seed-{ID} python3 run.py <prop> quick (tools/eval_seed.sh)"],
+    "ran": [f"VERIF_REPO=/tmp/{PFX}-{ID} python3 run.py <prop> quick (tools/eval_seed.sh); re-run against the current HEAD by tools/seeds_all.py"],
     "caught_by": [] if caught == "-" else caught.split(","),
 }
 json.dump(meta, open(f"{dst}/meta.json", "w"), indent=1)
